@@ -257,7 +257,17 @@ def lockedSections (p : PathEntry) : Nat :=
 def onlyLastWrites (p : PathEntry) : Bool :=
   p.sects.dropLast.all (fun s => s.accs.all (fun a => !a.write))
 
+/-- A type some method of which touches a `sync/atomic` field WITHOUT the lock (`atomicOutsideLock`: e.g. a lock-free
+`Size` from an atomic counter) has no locked section that writes atomic fields twice (`twoAtomicWritesInLock`): the
+lock-free reader would see the state between the two writes, so that section would no longer be one atomic step. -/
+def atomicsOk (t : List MethodEntry) : Bool :=
+  t.all (fun m =>
+    if m.paths.any (fun p => p.flags.contains "atomicOutsideLock") then
+      t.all (fun m' => m'.type != m.type || m'.paths.all (fun p => !p.flags.contains "twoAtomicWritesInLock"))
+    else true)
+
 def linTableOk (t : List MethodEntry) : Bool :=
+  atomicsOk t &&
   singleOps.all (fun o => t.any (fun m => m.type == o.1 && m.method == o.2 && m.inst == 0)) &&
   t.all (fun m =>
     if singleOps.contains (m.type, m.method) && m.inst == 0 then
